@@ -2,14 +2,15 @@
 
    The instrumented codec itself is coq/Codec (extract_element & co. take the capacities of the
    caller's buffers, the decoders return Ok / Exc / OOB site / Diverge / Fuel).  Since /repo d48d8ce
-   extract_element fails instead of writing past its buffers and since a0d41df decode_group leaves
-   its loop on an empty element; the pre-repair functions are kept in coq/Codec as *_orig.
+   extract_element fails instead of writing past its buffers, since a0d41df decode_group leaves its
+   loop on an empty element, since ce1e2cc extract_element_fixed_width is bounded and terminates the
+   tag; the pre-repair functions are kept in coq/Codec as *_orig.
    This file adds what C03 needs on top of the codec model, no proofs:
 
-     is_bytes, digit_runs_ok            hypotheses on the input
-     gm_ok, part_ok, c03_wf, c03_nodata the schema conditions (checked on the dumped metadata by the
+     is_bytes                           hypothesis on the input
+     gm_ok, part_ok, c03_wf             the schema conditions (checked on the dumped metadata by the
                                         driver at every run)
-     classified, safe                   the result classes the theorems speak about
+     safe                               the result class the theorems speak about
      atoi_ub, dt_ub, msg_ub ...         standing UB sites (F09, date/time parsers) as predicates on the
                                         texts the decoder converts
      dec_class / enc_class              the class of a run in the vocabulary of the tie
@@ -28,15 +29,6 @@ Local Open Scope N_scope.
 (* ------------------------------------------------------------------ inputs *)
 (* a string of bytes *)
 Definition is_bytes (l : list N) : bool := forallb (fun b => b <? 256) l.
-
-(* every run of digits is shorter than cap (dk = length of the run ending here).  Only
-   extract_element_fixed_width still needs it: its tag write is unbounded (NOT repaired), and decode
-   may call it at any offset, so the bound is position independent. *)
-Fixpoint digit_runs_ok (cap dk : N) (l : list N) : bool :=
-  match l with
-  | [] => true
-  | c :: r => let dk' := if is_digit c then dk + 1 else 0 in (dk' <? cap) && digit_runs_ok cap dk' r
-  end.
 
 (* ------------------------------------------------------------------ schema conditions *)
 Definition is_some {A} (o : option A) : bool := match o with Some _ => true | None => false end.
@@ -59,34 +51,8 @@ Definition nonnil {A} (l : list A) : bool := match l with [] => false | _ => tru
 Definition c03_wf (c : ctx) : bool :=
   part_ok (c_header c) && part_ok (c_trailer c) &&
   forallb (fun md => part_ok (md_meta md) && nonnil (md_type md)) (c_msgs c).
-(* no Length-typed field other than BodyLength in a header / trailer / body table: decode never
-   calls extract_element_fixed_width (whose tag write is neither bounded nor NUL-terminated) *)
-Definition nolen_b (ts : list trait) : bool :=
-  forallb (fun t => negb (t_ftype t =? ft_Length) || (t_fnum t =? Common_BodyLength)) ts.
-Definition c03_nodata (c : ctx) : bool :=
-  nolen_b (g_traits (c_header c)) && nolen_b (g_traits (c_trailer c)) &&
-  forallb (fun md => nolen_b (g_traits (md_meta md))) (c_msgs c).
-
 (* ------------------------------------------------------------------ results *)
 Definition safe {A} (r : res A) : Prop := match r with Ok _ | Exc _ => True | _ => False end.
-(* What a run of the repaired decoder can still end in besides Ok / Exc: the two memory errors of
-   the Length/data path -- extract_element_fixed_width writes a digit run of >= 2048 digits through
-   tag[2048] (site_tag_write), and leaves tag[] unterminated, so that decode reads stack bytes never
-   written (site_uninit_tag).  No other OOB site, no Diverge, no Fuel. *)
-Definition classified {A} (r : res A) : Prop :=
-  match r with
-  | Ok _ | Exc _ => True
-  | OOB s => s = site_tag_write \/ s = site_uninit_tag
-  | Diverge | Fuel => False
-  end.
-(* ... with bounded digit runs only the uninitialised read remains *)
-Definition classified_uninit {A} (r : res A) : Prop :=
-  match r with
-  | Ok _ | Exc _ => True
-  | OOB s => s = site_uninit_tag
-  | Diverge | Fuel => False
-  end.
-
 (* ------------------------------------------------------------------ fast_atoi<int> UB (F09)
    Since /repo a8219b1:  after a leading '-':  retval = retval * 10 - (ch - '0')  for every further char,
                          otherwise:            retval = retval * 10 + (ch - '0')
@@ -128,24 +94,34 @@ Local Open Scope N_scope.
    a misaligned load (UB) as soon as one word is read from a buffer that is not 4-aligned.
    Message::encode calls it on output + 32 - hlen, i.e. practically always misaligned; the alignment
    check is switched off in the harness builds except for the CHKSUM op of h_c03. *)
-Definition chksum_ub (misalign len : N) : bool := negb (misalign mod 4 =? 0) && (8 <=? len).
+Definition chksum_ub_orig (misalign len : N) : bool := negb (misalign mod 4 =? 0) && (8 <=? len).
+(* since /repo 9d9ce26 the words are loaded with memcpy: no alignment requirement any more *)
+Definition chksum_ub (misalign len : N) : bool := false.
 
 (* ------------------------------------------------------------------ date/time parsers (field.hpp)
-   parse_decimal(begin, len, to):  while (len-- > 0) to = (to << 3) + (to << 1) + (next char - '0');
-   reads len chars whatever they are; a char below '0' makes [to] negative and the next turn
-   shifts a negative value (UB).  date_time_parse / time_parse / date_parse read FIXED positions
-   of the text (beyond its NUL when it is too short: stale bytes of val[], not modelled -> None),
-   time_to_epoch indexes mon_days[tm_mon] without a range test (index out of bounds for a month
-   outside 01..13).
-   dt_ub ty v = Some true: UBSan reports UB; Some false: none; None: not determined by v alone. *)
+   parse_decimal(begin, len, to):  while (len-- > 0) to = to * 10 + (next char - '0');   (since /repo
+   da4ab8c; before: (to << 3) + (to << 1) + ..., a shift of a negative value after a char below '0').
+   It reads len chars whatever they are.  date_time_parse / time_parse / date_parse read FIXED
+   positions of the text (beyond its NUL when it is too short: stale bytes of val[], not modelled
+   -> None); time_to_epoch clamps the month to 0..11 for the mon_days lookup since da4ab8c (before:
+   index out of bounds for a month outside 01..13) and computes the seconds in time_t since 4d1009d.
+   What remains: the product with Tickval::billion is a signed 64-bit multiplication.
+   dt_ub ty v = Some true: UBSan reports UB; Some false: none; None: not determined by v alone.
+   The *_orig versions are the parsers before da4ab8c. *)
 Local Open Scope Z_scope.
-Definition pd_step (st : bool * Z) (ch : N) : bool * Z :=
+Definition pd_step_orig (st : bool * Z) (ch : N) : bool * Z :=
   let '(ub, r) := st in
   if ub then (true, r)
   else if r <? 0 then (true, r)
   else let s := r * 10 + (schar ch - 48) in
        if in_i32 s && (r * 8 <? 4294967296) then (false, s) else (true, r).
-Definition pd (chars : list N) : bool * Z := fold_left pd_step chars (false, 0).
+Definition pd_step_new (st : bool * Z) (ch : N) : bool * Z :=
+  let '(ub, r) := st in
+  if ub then (true, r)
+  else let s := r * 10 + (schar ch - 48) in
+       if in_i32 (r * 10) && in_i32 s then (false, s) else (true, r).
+Definition pd_step (orig : bool) := if orig then pd_step_orig else pd_step_new.
+Definition pd (orig : bool) (chars : list N) : bool * Z := fold_left (pd_step orig) chars (false, 0).
 
 Definition mon_days : list Z := [0; 31; 59; 90; 120; 151; 181; 212; 243; 273; 304; 334; 365].
 Definition in_i64 (z : Z) : bool := (-9223372036854775808 <=? z) && (z <? 9223372036854775808).
@@ -154,11 +130,12 @@ Definition in_i64 (z : Z) : bool := (-9223372036854775808 <=? z) && (z <? 922337
    The seconds are computed in time_t since the repair 4d1009d (before: in int, signed overflow
    from 2038-01-19 on); the product with 10^9 is a 64-bit signed multiplication (overflow for
    years before 1678 / after 2262) *)
-Definition tte_ub (year mon mday hour min sec acc : Z) : bool :=
-  if (mon <? 0) || (12 <? mon) then true
+Definition tte_ub (orig : bool) (year mon mday hour min sec acc : Z) : bool :=
+  if orig && ((mon <? 0) || (12 <? mon)) then true
   else
+    let cmon := if orig then mon else if mon <? 0 then 0 else if 11 <? mon then 11 else mon in
     let tyears := if year =? 0 then 0 else year - 70 in
-    let t0 := nth (Z.to_nat mon) mon_days 0 + (if mday =? 0 then 0 else mday - 1) in
+    let t0 := nth (Z.to_nat cmon) mon_days 0 + (if mday =? 0 then 0 else mday - 1) in
     let t1 := t0 + tyears * 365 in
     let t2 := t1 + Z.quot (tyears + 2) 4 in
     let tdays := if negb (year =? 0) && (Z.rem year 4 =? 0) && (mon <? 2) then t2 - 1 else t2 in
@@ -171,31 +148,33 @@ Definition sub (l : list N) (off n : N) : list N := firstN n (skipN off l).
 Definition is_now (s : list N) : bool :=
   match s with [110; 111; 119] => true | _ => false end.       (* "now" *)
 
-Definition dt_ub (ty : N) (v : list N) : option bool :=
+Definition dt_ub_gen (orig : bool) (ty : N) (v : list N) : option bool :=
   let s := cstr v in
   let len := lenN s in
   if (len =? 0) || is_now s then Some false                     (* "initialise to now" *)
   else if ty =? ft_UTCTimestamp then
     if len <? 17 then None
     else
-      let '(u1, y) := pd (sub s 0 4) in let '(u2, mo) := pd (sub s 4 2) in let '(u3, d) := pd (sub s 6 2) in
-      let '(u4, h) := pd (sub s 9 2) in let '(u5, mi) := pd (sub s 12 2) in let '(u6, se) := pd (sub s 15 2) in
-      let '(u7, ms) := if len =? 21 then pd (sub s 18 3) else (false, 0%Z) in
-      let ut := if (len =? 21) || (len =? 17) then tte_ub (y - 1900) (mo - 1) d h mi se (ms * 1000000) else false in
+      let '(u1, y) := pd orig (sub s 0 4) in let '(u2, mo) := pd orig (sub s 4 2) in let '(u3, d) := pd orig (sub s 6 2) in
+      let '(u4, h) := pd orig (sub s 9 2) in let '(u5, mi) := pd orig (sub s 12 2) in let '(u6, se) := pd orig (sub s 15 2) in
+      let '(u7, ms) := if len =? 21 then pd orig (sub s 18 3) else (false, 0%Z) in
+      let ut := if (len =? 21) || (len =? 17) then tte_ub orig (y - 1900) (mo - 1) d h mi se (ms * 1000000) else false in
       Some (u1 || u2 || u3 || u4 || u5 || u6 || u7 || ut)
   else if ty =? ft_UTCTimeOnly then
     if len <? 8 then None
     else
-      let u1 := fst (pd (sub s 0 2)) in let u2 := fst (pd (sub s 3 2)) in let u3 := fst (pd (sub s 6 2)) in
-      let u4 := if len =? 12 then fst (pd (sub s 9 3)) else false in
+      let u1 := fst (pd orig (sub s 0 2)) in let u2 := fst (pd orig (sub s 3 2)) in let u3 := fst (pd orig (sub s 6 2)) in
+      let u4 := if len =? 12 then fst (pd orig (sub s 9 3)) else false in
       Some (u1 || u2 || u3 || u4)
   else if (ty =? ft_UTCDateOnly) || (ty =? ft_LocalMktDate) || (ty =? ft_MonthYear) then
     if len <? 6 then None
     else
-      let '(u1, y) := pd (sub s 0 4) in let '(u2, mo) := pd (sub s 4 2) in
-      let '(u3, d) := if len =? 8 then pd (sub s 6 2) else (false, 1%Z) in
-      Some (u1 || u2 || u3 || tte_ub (y - 1900)%Z (mo - 1)%Z d 0%Z 0%Z 0%Z 0%Z)
+      let '(u1, y) := pd orig (sub s 0 4) in let '(u2, mo) := pd orig (sub s 4 2) in
+      let '(u3, d) := if len =? 8 then pd orig (sub s 6 2) else (false, 1%Z) in
+      Some (u1 || u2 || u3 || tte_ub orig (y - 1900)%Z (mo - 1)%Z d 0%Z 0%Z 0%Z 0%Z)
   else Some false.
+Definition dt_ub := dt_ub_gen false.
+Definition dt_ub_orig := dt_ub_gen true.
 
 (* Field<int> built from a C string is what decode builds for the int classes ft_int .. ft_end_int *)
 (* BodyLength is the exception: decode starts after the preamble and a repeated 9= is skipped
